@@ -14,6 +14,11 @@ STRENGTHENED = {"C02-a": "discount domain extended beyond 200 %", "C03-b": "caug
                 "C29-s": "monitor AdjBand on every adjusted price",
                 "C08-r2": "fee-spill scenarios (fees partly paid from the secondary output) + per-event dust bound",
                 "C04-r2": "swap-fee discount factor added to the configuration domain",
+                "C24-r2": "oracle time validators of time.rs bound (ValidateTime, TimeMaxAge ... on 1-3 feeds with different timestamps)",
+                "C16-r2": "SDK read-back of every model-trait accessor (h-sdk c16s); also caught by C40",
+                "C44-r2": "RejectCreate/RejectExec cover walks not ending in the declared token; PaidDeclared; world with collateral",
+                "C22-r2": "withdrawals with >= 2-hop output paths ending in a token of the first market",
+                "C38-r2": "wide reward pairs judged through BigNum (RewardMonoWide)",
                 "C36-r2": "delays above 30 days and near u32::MAX in both C36 bindings",
                 "C15-s": "SDK pool view bound at the u128 limits",
                 "C40-a": "closed-market parameter combinations in the compared views",
